@@ -245,7 +245,18 @@ Definition render_key (c : cfg) (s : st) (i : N) (k : key) : list asample :=
 Definition render_all (c : cfg) (s : st) : list asample :=
   flat_map (fun ik => render_key c s (fst ik) (snd ik)) (indexed 0 (c_keys c)).
 
-(* ---- one operation *)
+(* ---- one operation.
+   ATOMICITY ASSUMPTION (Upkeep, Render).  [drain] is ONE step of the model: for every handle the
+   pending samples leave the bucket and enter the distribution entry together, and a Render reads
+   the distributions only after its own drain.  The code fact this rests on:
+   drain_histograms_to_distributions takes the `distributions` write lock FIRST and calls
+   `clear_with(|samples| entry.record_samples(samples))` while holding it, so another thread's
+   render()/run_upkeep() can never find a bucket already emptied whose samples are not yet in the
+   map: its own drain of that key blocks on the lock, and its snapshot (`distributions.read()`) comes
+   after its drains.  Were the samples taken out before the lock (a local Vec), a concurrent
+   render would under-report completed records although every sequential history behaves the same.
+   The theorems are about sequential histories and do not prove this; the visibility stress engine
+   of vlib/c07.py tests it on the real code. *)
 Definition step (c : cfg) (s : st) (o : op) : st * option (list asample) :=
   match o with
   | Upkeep => (drain c s, None)
